@@ -847,6 +847,15 @@ fn mutate(rng: &mut Rng, m: &mut Model, kind: &str) -> Option<(String, String)> 
             }
             if cands.is_empty() { return None; }
             let (i, j) = *rng.pick(&cands);
+            // the type the owning (root) interface declares for this field: the least refined one
+            let owner_nonnull = {
+                let f = match &m.items[i] { Item::T(TypeDef { kind: Kind::Object { fields, .. } | Kind::Interface { fields, .. }, .. }) => fields[j].clone(), _ => unreachable!() };
+                let (owner, fname) = f.root.clone().unwrap();
+                match m.get(&owner).map(|t| &t.kind) {
+                    Some(Kind::Interface { fields, .. }) => fields.iter().find(|x| x.name == fname).map_or(false, |x| x.ty.is_nonnull()),
+                    _ => false,
+                }
+            };
             // types further down that inherit through this one would break too (still the same rule); fine: >= 1 diagnostic is all that is asked
             let (tag, fs) = fields_mut(m, i);
             match kind {
@@ -855,7 +864,8 @@ fn mutate(rng: &mut Rng, m: &mut Model, kind: &str) -> Option<(String, String)> 
                     let old = fs[j].ty.clone();
                     let new = match rng.below(4) {
                         0 => { let mut t = old.clone(); t.set_base(if old.base() == "Float" { "Boolean" } else { "Float" }); t }
-                        1 => if let Ty::NonNull(x) = &old { (**x).clone() } else { Ty::l(old.clone()) },
+                        // dropping `!` breaks covariance only where the interface itself says `!`
+                        1 => if let (Ty::NonNull(x), true) = (&old, owner_nonnull) { (**x).clone() } else { Ty::l(old.clone()) },
                         2 => Ty::l(old.clone()),
                         _ => match &old { Ty::List(x) => (**x).clone(), Ty::NonNull(x) => match &**x { Ty::List(y) => (**y).clone(), _ => Ty::l(old.clone()) }, _ => Ty::l(old.clone()) },
                     };
@@ -1208,8 +1218,9 @@ fn main() {
     let mut dist: BTreeMap<String, u64> = BTreeMap::new();
     let mut direct_failures: Vec<serde_json::Value> = vec![];
     let mut bump = |k: String, d: &mut BTreeMap<String, u64>| { *d.entry(k).or_insert(0) += 1; };
-    let n_base = if thorough { 400 } else { 48 };
-    let muts_per_base = if thorough { 24 } else { 12 };
+    // quick: 48 models, 12 mutation kinds each (rotating through all kinds); thorough: 160 models, every mutation kind on each
+    let n_base = if thorough { 160 } else { 48 };
+    let muts_per_base = if thorough { mutation_kinds().len() } else { 12 };
     let all_muts = mutation_kinds();
     let mut mut_cursor = 0usize;
     let mut n_valid = 0u64; let mut n_valid_accepted = 0u64; let mut n_fault = 0u64; let mut n_fault_rejected = 0u64;
@@ -1262,7 +1273,7 @@ fn main() {
             }
         }
         let mut done = 0; let mut tries = 0;
-        while done < muts_per_base && tries < muts_per_base * 6 {
+        while done < muts_per_base && tries < (if thorough { muts_per_base } else { muts_per_base * 6 }) {
             tries += 1;
             let kind = all_muts[mut_cursor % all_muts.len()]; mut_cursor += 1;
             let mut mm = m.clone();
@@ -1293,7 +1304,7 @@ fn main() {
         }
     }
     let _ = (&mut n_parse_err, &mut n_errs_total);
-    cases.shard_size = ((cases.len() + 15) / 16).max(8);
+    cases.shard_size = if thorough { 120 } else { ((cases.len() + 15) / 16).max(8) };
     cases.write(&args.out);
     write_meta(&args.out, &json!({
         "evaluations": cases.len(),
